@@ -7,7 +7,9 @@
           23 = C15_sym: S[i,j,k] = S[j,i,-k] fails
           24 = C15_sym: the centre bin is not the larger of the two one-sided zero-lag counts
           26 = C15_rate: firing-rate normaliser is not n_i * n_j * bin / duration
-          3  = input outside the stated regime (harness bug) *)
+          3  = input outside the stated regime (harness bug): Spec.params_regime (the hypothesis of C15_params,
+               checked on the abstract input: dyadic rate/bin/window, every time s/rate a float64), sorted train,
+               at most 65536 spikes (C15_count_bound), valid id list *)
 From Coq Require Import ZArith List Lia Bool QArith Qround.
 From PV Require Export Base.NpList Base.NpSearch C15.Model C15.Spec.
 Import ListNotations.
@@ -46,11 +48,6 @@ Definition toksQ (R : list (list tok)) : option (list (list Q)) :=
   all_some (map (fun row => all_some (map tokQ row)) R).
 
 (* ---- regime ---- *)
-Definition is_pow2 (p : positive) : bool := Z.pos p =? 2 ^ Z.log2 (Z.pos p).
-(* dyadic, numerator below 2^nb, denominator at most 2^db *)
-Definition dyadic (nb db : Z) (x : Q) : bool :=
-  let r := Qred x in
-  is_pow2 (Qden r) && (Z.abs (Qnum r) <? 2 ^ nb) && (Z.pos (Qden r) <=? 2 ^ db).
 Fixpoint memZ (x : Z) (l : list Z) : bool :=
   match l with [] => false | y :: r => (x =? y) || memZ x r end.
 Fixpoint nodupb (l : list Z) : bool :=
@@ -63,15 +60,10 @@ Definition labels_ok (labels : list Z) (ids : option (list Z)) : bool :=
               forallb (fun x => memZ x l) labels
   end.
 
-Definition in_range (lo hi x : Q) : bool := Qle_bool lo x && Qle_bool x hi.
-
 Definition ccg_regime (t labels : list Z) (ids : option (list Z)) (rate bin win : Q) : bool :=
-  sortedZb t && Nat.eqb (length t) (length labels) && (Z.of_nat (length t) <? 40000) &&
-  forallb (fun x => Z.abs x <? 2 ^ 50) t &&
+  sortedZb t && Nat.eqb (length t) (length labels) && (Z.of_nat (length t) <=? 65536) &&   (* C15_count_bound: no int32 count can wrap *)
   labels_ok labels ids &&
-  negb (Qle_bool rate 0) && dyadic 20 12 rate &&
-  dyadic 13 12 bin && in_range (1 # 4096) (4096 # 1) bin &&
-  dyadic 13 12 win && in_range (1 # 4096) (4096 # 1) win &&
+  params_regime t rate bin win &&          (* Spec.v: the hypothesis of C15_params, incl. "time = s/rate is a float64" *)
   (1 <=? binsize_of rate bin).
 
 Definition rate_regime (labels : list Z) (ids : option (list Z)) (bin : Q) (dur : option Q) : bool :=
@@ -82,9 +74,7 @@ Definition rate_regime (labels : list Z) (ids : option (list Z)) (bin : Q) (dur 
   | Some d => Qle_bool 0 d && dyadic 20 20 d
   end.
 
-(* every entry of the exact result is a float64 (so the float computation is exact) *)
-Definition exact_f64 (x : Q) : bool := dyadic 53 900 x.
-
+(* exact_f64 (Spec.v): every entry of the exact result is a float64 (so the float computation is exact) *)
 Definition check (c : case) : list Z :=
   match cin c, cobs c with
   | InCCG t labels ids rate bin win symm, o =>
